@@ -162,8 +162,8 @@ func oamBugMain(c *Ctx) {
 	rng := c.Rand(1701)
 	n := 0
 	// LCD switched off at every cycle of a line (every cycle of several lines in thorough), then the program runs with the LCD off
-	step := 3
-	lines := []int{1, 70, 150}
+	step := 2
+	lines := []int{0, 1, 70, 143, 144, 150}
 	if c.Thorough() {
 		step = 1
 		lines = []int{0, 1, 2, 70, 143, 144, 150, 153}
@@ -175,9 +175,9 @@ func oamBugMain(c *Ctx) {
 		}
 	}
 	// LCD on throughout: cycles outside mode 2 are judged
-	count := 10
+	count := 30
 	if c.Thorough() {
-		count = 120
+		count = 300
 	}
 	for i := 0; i < count; i++ {
 		w.Put(oamBugRun(oamBugJob{fmt.Sprintf("oambug-on-%d", n), rng.Int63n(1 << 40), -1, 6000, 3 + rng.Intn(17000)}))
